@@ -18,7 +18,7 @@ RULE = ('One case = one host (real LinuxAppEnvironment / RuleMgr / EndpointsMgr 
         'request, real allocate_network_ports on a loopback address, real save_app, real _run._unshare_network; 12% are cut by a '
         'process kill or a failing ipset call), finish (real _finish.finish reading state.json back, or load_app_safe + '
         '_cleanup_network directly; 45% of the containers first get one or two finish attempts that are interrupted - a kill at '
-        'a boundary step, a failing ipset / conntrack call, or a kill right after the network request link was removed, which '
+        'a boundary step, a failing ipset / conntrack call, the open(2) of state.json failing once with a transient error, or a kill right after the network request link was removed, which '
         'lets the network service hand the VIP (lowest free address, as VipMgr does) to the next container - while other '
         'containers start and finish in between, then the complete run - 15% of these while the restarted network service re-processes that very request (the real ResourceService._on_created around the daemon stand-in; the finish runs inside on_create_request); followed by 0-2 immediate repeats), and late repeats of '
         'the finish of already finished containers (after their VIP has been handed to a newer container). Oracle (snapshot arithmetic over rules/, endpoints/ and the IP-set model, '
@@ -302,7 +302,7 @@ def _run_op(ctx, host, containers, op, initial, case, flags):
         cut = None
         if op['cut'] is not None:
             kind, arg = op['cut']
-            if kind == 'kill_at':
+            if kind in ('kill_at', 'ioerror'):
                 cut = (kind, arg)
             else:
                 n = gen.estimate_steps(c.manifest, len(c.manifest['passthrough']))
